@@ -22,3 +22,21 @@ def facts(repo, f, H):
     if "return name + typedColumnSeparator + suffix" not in body:
         raise ValueError("banyand/measure/column.go: unrecognised encodeTypedColumn")
     f["typedShape"] = True
+
+    # sidx mergeParts: how the merged part's optional timestamp range is aggregated
+    m = re.sub(r"\s+", " ", H.strip_comments(H.read(repo, "banyand/internal/sidx/merge.go")))
+    legacy = ("if p.MinTimestamp != nil { if !hasMinTS || *p.MinTimestamp < minVal { minVal = *p.MinTimestamp hasMinTS = true } } "
+              "if p.MaxTimestamp != nil { if !hasMaxTS || *p.MaxTimestamp > maxVal { maxVal = *p.MaxTimestamp hasMaxTS = true } } } "
+              "if hasMinTS && hasMaxTS { pm.MinTimestamp = &minVal pm.MaxTimestamp = &maxVal }")
+    fixed = ("if p.MinTimestamp == nil || p.MaxTimestamp == nil { hasRange = false break } "
+             "if i == 0 || *p.MinTimestamp < minVal { minVal = *p.MinTimestamp } "
+             "if i == 0 || *p.MaxTimestamp > maxVal { maxVal = *p.MaxTimestamp } } "
+             "if hasRange { pm.MinTimestamp = &minVal pm.MaxTimestamp = &maxVal }")
+    if (legacy in m) == (fixed in m):
+        raise ValueError("banyand/internal/sidx/merge.go: unrecognised aggregation of the merged part's timestamp range")
+    f["sidxHullAllOrNone"] = fixed in m
+    pw = re.sub(r"\s+", " ", H.strip_comments(H.read(repo, "banyand/internal/sidx/part_wrapper.go")))
+    if ("if pm.MinTimestamp == nil || pm.MaxTimestamp == nil { return true } "
+            "if *pm.MaxTimestamp < minTS || *pm.MinTimestamp > maxTS { return false } return true") not in pw:
+        raise ValueError("banyand/internal/sidx/part_wrapper.go: unrecognised overlapsTimestampRange")
+    f["sidxOverlapsShape"] = True
